@@ -117,7 +117,13 @@ func newCache(cfg CacheCfg) CacheLike {
 		var ecb cache.EvictedCallback
 		if cfg.Callback != nil {
 			cb := cfg.Callback
-			ecb = func(k string, v interface{}) { cb(keyIndex(k), ad.ub(v)) }
+			// the closure must not reference the adapter (and through it the cache): a cycle through an
+			// object with a finalizer is never collected, and the janitor would never stop
+			ub := unboxV
+			if cfg.Payload {
+				ub = unboxP
+			}
+			ecb = func(k string, v interface{}) { cb(keyIndex(k), ub(v)) }
 		}
 		var c cache.Cache
 		if cfg.UseDefault {
